@@ -212,6 +212,9 @@ func checkC16(tier string) {
 	}
 	markSuspects(rep, "C16", cases)
 	env := []string{"VERIF_FUEL=2", "VERIF_TRAVLEN=4"}
+	if tier == "thorough" {
+		env = []string{"VERIF_FUEL=2", "VERIF_TRAVLEN=7"}
+	}
 	res := runE1(cases, "C16", 40, env, 1)
 	aggregateE1(rep, "C16", cases, res,
 		fmt.Sprintf("%d configurations: Compose chains of 2..4 stages x every width vector (input 0..2, intermediate and final 0..3; 4-stage chains over a reduced width alphabet in the quick tier) with types rotating through {int, MyInt, string, Flat, [2]int, *int, []int, map[string]int, interface{}}; the four Fmap error forms x 9 element types; Join error forms with 0..3 values; Traverse over lists of length 0..4 (and nil) with the failure at every index; ToError with 0..2 arguments and 0..2 extra results; every choice of failing stage x two distinct error values (one of a user-defined type)", len(cases)),
